@@ -12,6 +12,10 @@ int vnet_noanswer_open(struct vnet_noanswer *na, const char *ip, int port);
 /* drain the queue so that a retransmitted SYN is answered (about one second later) */
 void vnet_noanswer_release(struct vnet_noanswer *na);
 void vnet_noanswer_close(struct vnet_noanswer *na);
+/* an address that refuses and keeps refusing: a socket bound to it without SO_REUSEADDR and never listening.  Nobody else - another
+ * worker's listener on a shared loopback address, the kernel choosing the source port of an outgoing connection (TCP self-connect) -
+ * can put a TCP endpoint there while it is held.  Returns the descriptor, -1 if the address is taken. */
+int vnet_guard(const char *ip, int port);
 /* plain raw listener (accepting), returns fd */
 int vnet_listen(const char *ip, int port, int backlog);
 int vnet_is_v6(const char *ip);
